@@ -74,11 +74,17 @@ class SandboxCoverageTracer(SandboxBasicTracer):
         self.pc_covered = None
         self.missing = set()
         self.lines = set()
+        self._owner = None
 
     def __enter__(self):
+        # The measurement is started and stopped by one thread: another thread
+        # (a student file imported under a time limit) neither nests nor ends it
+        if self._depth and threading.get_ident() != self._owner:
+            return
         self._depth += 1
         if self._depth > 1:
             return
+        self._owner = threading.get_ident()
         # Force coverage to accept the code
         self.original = coverage.python.get_python_source
 
@@ -95,6 +101,8 @@ class SandboxCoverageTracer(SandboxBasicTracer):
         self.coverage.start()
 
     def __exit__(self, exc_type, exc_val, traceback):
+        if threading.get_ident() != self._owner:
+            return
         self._depth -= 1
         if self._depth:
             return
